@@ -265,15 +265,16 @@ func (p *c07) Run(rec *core.Recorder, seed uint64, idx int, tier string) {
 		p.checkValue(rec, r, "fixed", fixed[idx], fixed[idx], len(fixed[idx]) < 5000)
 		return
 	}
-	if idx < 60 {
-		// non-string values: text(v) is what {{ v }} prints
+	if idx < len(fixed)-1+48 {
+		// non-string values: text(v) is what {{ v }} prints (48 >= the number of values below)
 		sp := "<p>&'\""
 		vals := []interface{}{0, -5, 42, 3.5, -0.25, true, false, nil, int64(1 << 40), 1e6,
 			c07Op(1), c07Op(2), c07Flag(true), c07Ratio(1.5), c07Tag{"b"}, &c07Tag{"i"}, c07Str("<typed & 'string'>"), []byte("<bytes&>"), &sp, fmt.Errorf("error <value> & \"text\""),
 			[]string{"<a>", "b&c", "'q'"}, []interface{}{"<x>", 1, "\"y\""}, map[string]string{"<k>": "<v>&"}, map[string]interface{}{"k": "<v>"}, [2]string{"<", ">"}, c07Strs{"<s>"},
 			map[string]interface{}{"<k>": "v", "a&b": []interface{}{"'"}}, []interface{}{map[string]interface{}{"\"q\"": 1, "k'": "<v>"}}, map[string]interface{}{"plain": map[string]interface{}{"<in>": 1}},
-			uint8('<'), int32('&'), struct{ A string }{"<f>"}, time.Duration(90) * time.Second, c07Both{3}, json.Number("1<2"), template07("<t>")}
-		v := vals[idx%len(vals)]
+			uint8('<'), int32('&'), struct{ A string }{"<f>"}, time.Duration(90) * time.Second, c07Both{3}, json.Number("1<2"), template07("<t>"),
+			float32(1e21), float32(2.5), uint64(1) << 63, uint16(9), 1e21, -1e-7}
+		v := vals[(idx-(len(fixed)-1))%len(vals)]
 		plain := renderFresh(map[string]string{"main": "{{ v }}"}, "main", map[string]interface{}{"v": v}, nil)
 		if plain.Err == nil && !plain.Panicked {
 			p.checkValue(rec, r, "non-string", v, plain.Out, true)
